@@ -306,6 +306,27 @@ def stepX (s : DSys) (w : List String) : DSys × String :=
     (s', match out.splitOn " ret=" with
       | [a, b] => a ++ ((b.splitOn " | S ").drop 1 |>.foldl (fun acc x => acc ++ " | S " ++ x) "")
       | _ => out)
+  | ["xi", "gappend", jw] =>
+    -- `item_group::append(const identifier *, metatype *)`: a new item (identifier of 24 bytes) gets a copy
+    match getSlot s jw with
+    | some _ =>
+      if s.m.ids.length ≥ maxSlots then (s, "bad-op")
+      else
+        let k := s.m.ids.length
+        let (s1, _) := newSlot s 24
+        step s1 ["i", "copy", toString k, jw]
+    | none => (s, "bad-op")
+  | "xi" :: "aappend" :: dw :: rest =>
+    -- `item_array::append(T *, const char *, int)`: a new item (identifier of 24 bytes) named with `set_name`;
+    -- a refused name takes the item away again
+    if dw = "null" ∨ rest.length > 1 ∨ s.m.ids.length ≥ maxSlots then (s, "bad-op")
+    else
+      let k := s.m.ids.length
+      let (s1, _) := newSlot s 24
+      let (s2, out) := step s1 ("i" :: "set" :: toString k :: dw :: rest)
+      if out = "bad-op" then (s, "bad-op")
+      else if out.startsWith "R refused" then (s, line "refused" s [("refused", s.spec)])
+      else (s2, out)
   | ["xi", "name", kw] =>
     match getSlot s kw with
     | some (k, id) =>
